@@ -20,9 +20,11 @@ ALPHABET = {
     "o": (False, "over"),
     "e": (True, "empty"),
     "E": (False, "empty"),
+    "U": (True, "uni"),      # non-ASCII payload: 55 three-byte characters (165 bytes raw, 330 bytes as \\uXXXX escapes)
+    "u": (False, "uni"),
 }
 MAX_BYTES = 400
-PAYLOAD = {"small": "", "large": "x" * 180, "over": "y" * 480}
+PAYLOAD = {"small": "", "large": "x" * 180, "over": "y" * 480, "uni": "\u4e2d" * 55}
 
 
 class ApiFailure(RuntimeError):
@@ -138,7 +140,7 @@ def run_one(cfg, prefix, expect=None):
         st = ExecutionState(
             durable_execution_arn="arn:test", initial_checkpoint_token="tok0", operations={},
             service_client=Client(),
-            batcher_config=CheckpointBatcherConfig(max_batch_size_bytes=MAX_BYTES,
+            batcher_config=CheckpointBatcherConfig(max_batch_size_bytes=cfg.get("max_bytes", MAX_BYTES),
                                                    max_batch_time_seconds=window,
                                                    max_batch_operations=max_ops))
         state_box["st"] = st
@@ -176,6 +178,8 @@ def features(cfg):
         f.append("large")
     if any(c in "eE" for s in seqs for c in s):
         f.append("empty")
+    if any(c in "uU" for s in seqs for c in s):
+        f.append("non-ascii")
     return "+".join(f) or "small-only"
 
 
@@ -257,8 +261,9 @@ def judge_stream(cfg, ex, calls, events):
     for c in calls:
         if len(c["ids"]) > cfg.get("max_ops", 250):
             V("op-count-limit", f"call {c['n']} has {len(c['ids'])} updates > {cfg.get('max_ops')}")
-        if len(c["ids"]) > 1 and sum(c["sizes"]) > MAX_BYTES:
-            V("size-limit", f"call {c['n']} has {sum(c['sizes'])} bytes in {len(c['ids'])} updates > {MAX_BYTES}")
+        if len(c["ids"]) > 1 and sum(c["sizes"]) > cfg.get("max_bytes", MAX_BYTES):
+            V("size-limit", f"call {c['n']} has {sum(c['sizes'])} bytes (as serialized for the wire) in {len(c['ids'])} updates > "
+                            f"{cfg.get('max_bytes', MAX_BYTES)}")
     return viol
 
 
